@@ -1,5 +1,5 @@
-(* Proofs/C08_RelLaw.v - the make_relative inverse law for hierarchical records with authority, every
-   scheme except "file":  inside MR_ok, join(base, make_relative(base, target)) = target.
+(* Proofs/C08_RelLaw.v - the make_relative inverse law for hierarchical records ("scheme://..." with
+   authority, or "scheme:/path" without authority and without the "/." marker), every scheme except "file":  inside MR_ok, join(base, make_relative(base, target)) = target.
    Both records in explicit form (hier_url), sharing everything in front of the path; the target's
    segments, query and fragment canonical (what the parser stores), the base's path only free of stray '/'. *)
 From RU Require Import Base.Prelude Base.Utf8 Base.Utf8Facts Model.AsciiSet Gen.Tables Model.PercentEncoding
@@ -72,7 +72,7 @@ Qed.
 
 Record rel_ok (pre : list N) (se : N) (bsegs : list (list N)) (blast : list N)
               (tsegs : list (list N)) (tlast : list N) (tq tf : option (list N)) : Prop := mk_rel_ok {
-  ro_front : front_auth se pre;
+  ro_front : front_pre se pre;
   ro_nofile : st_is_file (scheme_type_of (nfirstn se pre)) = false;
   ro_bsegs : forallb no_slash bsegs = true;
   ro_blast : no_slash blast = true;
@@ -89,6 +89,24 @@ Proof.
   apply forallb_impl. intros s H. destruct (seg_ok_parts st s H) as [Hg _].
   destruct (good_seg_parts s Hg) as (_ & Hn & _). exact Hn.
 Qed.
+
+(* a path whose segments are non-empty does not start with "//" *)
+Lemma path_no_ss segs last : forallb nonempty segs = true -> forallb no_slash segs = true -> no_slash last = true ->
+  starts_with s_ss (47 :: segs_text segs ++ last) = false.
+Proof.
+  intros Hn Hs Hl. unfold s_ss. cbn [starts_with]. replace (47 =? 47) with true by reflexivity. cbn [andb].
+  destruct segs as [|s segs].
+  - cbn [segs_text map concat app]. destruct last as [|c l]; [reflexivity|].
+    unfold no_slash in Hl. cbn [forallb] in Hl. apply andb_true_iff in Hl. destruct Hl as [Hc _]. apply negb_true_iff in Hc.
+    rewrite N.eqb_sym, Hc. reflexivity.
+  - cbn [forallb] in Hn, Hs. apply andb_true_iff in Hn, Hs. destruct Hn as [Hn _]. destruct Hs as [Hs _].
+    destruct s as [|c s]; [discriminate|]. unfold segs_text. cbn [map concat app].
+    unfold no_slash in Hs. cbn [forallb] in Hs. apply andb_true_iff in Hs. destruct Hs as [Hc _]. apply negb_true_iff in Hc.
+    rewrite N.eqb_sym, Hc. reflexivity.
+Qed.
+
+Lemma front_for_of se pre X : front_pre se pre -> starts_with s_ss X = false -> front_for se pre X.
+Proof. intros [H|H] Hx; [left; exact H | right; split; assumption]. Qed.
 
 Lemma forallb_app_r {A} (f : A -> bool) a b : forallb f (a ++ b) = true -> forallb f b = true.
 Proof. rewrite forallb_app. intros H. apply andb_true_iff in H. tauto. Qed.
@@ -109,7 +127,8 @@ Proof.
   set (st := scheme_type_of (nfirstn se pre)) in *.
   pose proof (segs_ok_no_slash st tsegs Hts) as Htn.
   destruct (good_seg_parts tlast (proj1 (seg_ok_parts st tlast Htl))) as (_ & Htln & _).
-  destruct (mr_ok_hier pre se ue hs he hi po bsegs blast bq bf tsegs tlast tq tf Hfa Hbs Hbl Htn Htln Hok)
+  destruct (mr_ok_hier pre se ue hs he hi po se ue hs he hi po bsegs blast bq bf tsegs tlast tq tf
+              (hier_cbb _ _ _ _ _ _ _ _ _ _ _ Hfa) (hier_cbb _ _ _ _ _ _ _ _ _ _ _ Hfa) Hbs Hbl Htn Htln Hok)
     as (Nb & Nt & Hw & Hrest).
   destruct (skip_common_split bsegs tsegs) as (common & ra & rb & Eb & Et & Es).
   destruct (Hrest ra rb Es) as (F1 & F2 & F3). clear Hrest.
@@ -152,7 +171,9 @@ Proof.
       - unfold dots_text. cbn [map concat app]. reflexivity. }
     pose proof (join_rel_path dbg hp hpo hd b pre common ra rb blast tlast tq tf c rp') as J.
     rewrite Hbst in J. rewrite <- EP in J.
-    specialize (J eq_refl Hbq Hcb Hnf Hfa Hbl Hra Hwra Hrb Htl Hq Hf Erp Hc Hcbs Hsch Bq Bf).
+    assert (front_for se pre (47 :: segs_text (common ++ rb) ++ tlast)) as Hff.
+    { apply front_for_of; [exact Hfa|]. rewrite <- Et. apply path_no_ss; assumption. }
+    specialize (J eq_refl Hbq Hcb Hnf Hff Hbl Hra Hwra Hrb Htl Hq Hf Erp Hc Hcbs Hsch Bq Bf).
     rewrite J. reflexivity. }
   subst r. unfold rel_path_text.
   destruct ra as [|a ra'].
@@ -188,7 +209,8 @@ Proof.
         -- (* "/" at the root *)
            specialize (F1 eq_refl eq_refl eq_refl eq_refl). subst common.
            pose proof (join_rel_root dbg hp hpo hd b pre tq tf) as J. rewrite Hbst in J.
-           specialize (J eq_refl (hier_pre_of pre se ue hs he hi po [] blast bq bf) Hcb Hnf Hfa Hq Hf Bq Bf).
+           specialize (J eq_refl (hier_pre_of pre se ue hs he hi po [] blast bq bf) Hcb Hnf
+                         (front_for_of se pre [47] Hfa eq_refl) Hq Hf Bq Bf).
            cbn [app]. rewrite J. unfold t, b, hier_url, url_with.
            cbn [scheme_end username_end host_start host_end hosti port path_start path_text segs_text map concat app].
            reflexivity.
